@@ -33,6 +33,7 @@ PY
 done
 # merge into the matrix file (replace rows of the mutants just run)
 touch "$OUT"
+exec 9>/verif/bin/matrix.lock; flock 9
 python3 - "$OUT" "$TMP" <<'PY'
 import sys
 out,tmp=sys.argv[1:3]
